@@ -1,7 +1,7 @@
 \* C14: shapes up to 2 towers x 2 steps, up to 3 workers, all strategies, parent threads 1 and 4; all interleavings
 CONSTANTS
   MaxNT = 2 MaxNS = 2 MaxNW = 3
-  Strategies = {"towers", "time", "both"}
+  Strategies = {"towers", "time", "both", "serial", "cli"}
   ParentThreadSet = {1, 4}
   Collect = "position" SliceStep = "NS" WorkerInit = TRUE
 INIT Init
